@@ -7,13 +7,16 @@ namespace Zed.Fuse
 
 /-- what the pairwise theorem says of a merge function -/
 def FitsJoin (m : Ty → Ty → Option Ty) : Prop :=
-  ∀ a b c, clean a = true → clean b = true → m a b = some c → fits a c = true ∧ fits b c = true
+  ∀ a b c, clean a = true → clean b = true → m a b = some c → fitsN a c = true ∧ fitsN b c = true
 
-theorem fits_of_under_eq {a T : Ty} (h : a.under = T.under) : fits a T = true := by
-  simp [fits, fitsHead, h]
+theorem fits_of_fitsN {a T : Ty} (he : a.isError = false) (h : fitsN a T = true) : fits a T = true := by
+  simp [fits, he, h]
 
-theorem fits_of_null {a T : Ty} (h : a.under = tyNull) : fits a T = true := by
-  simp [fits, fitsHead, h]
+theorem fits_of_under_eq {a T : Ty} (h : a.under = T.under) : fitsN a T = true := by
+  simp [fitsN, fitsHead, h]
+
+theorem fits_of_null {a T : Ty} (h : a.under = tyNull) : fitsN a T = true := by
+  simp [fitsN, fitsHead, h]
 
 theorem findIdx_isSome_of_mem (p : Ty → Bool) : (ms : Tys) → (m : Ty) → m ∈ ms.toList → p m = true →
     (ms.findIdx p).isSome = true
@@ -37,7 +40,7 @@ theorem bestUnionTag_of_mem {a T : Ty} {ms : Tys} (hT : T.under = .union ms) (h 
   | some i => simp
   | none => simp [hf] at this
 
-/-- a non-union type fits any target in which it has a union member -/
+/-- a non-union type fitsN any target in which it has a union member -/
 theorem fitsU_of_tag (orig T : Ty) (hb : (bestUnionTag orig T).isSome = true) :
     (cur : Ty) → cur.isUnion = false → fitsU orig cur T = true
   | .named _ t, h => by
@@ -48,6 +51,8 @@ theorem fitsU_of_tag (orig T : Ty) (hb : (bestUnionTag orig T).isSome = true) :
   | .record _, _ => by simp [fitsU, hb]
   | .array _, _ => by simp [fitsU, hb]
   | .set _, _ => by simp [fitsU, hb]
+  | .enum _, _ => by simp [fitsU, hb]
+  | .error _, _ => by simp [fitsU, hb]
   | .union _, h => by simp [Ty.isUnion, Ty.under] at h
 
 theorem clean_not_union : (a : Ty) → clean a = true → a.isUnion = false ∧ a.isMap = false
@@ -58,8 +63,25 @@ theorem clean_not_union : (a : Ty) → clean a = true → a.isUnion = false ∧ 
   | .record _, _ => by simp [Ty.isUnion, Ty.isMap, Ty.under]
   | .array _, _ => by simp [Ty.isUnion, Ty.isMap, Ty.under]
   | .set _, _ => by simp [Ty.isUnion, Ty.isMap, Ty.under]
+  | .enum _, _ => by simp [Ty.isUnion, Ty.isMap, Ty.under]
+  | .error _, h => by simp [clean] at h
   | .map _ _, h => by simp [clean] at h
   | .union _, h => by simp [clean] at h
+
+theorem clean_not_error (a : Ty) (h : clean a = true) : a.isError = false := by
+  have := clean_under_aux a h
+  exact this
+where
+  clean_under_aux : (a : Ty) → clean a = true → a.isError = false
+    | .named _ t, h => by simpa [Ty.isError, Ty.under] using clean_under_aux t (by simpa [clean] using h)
+    | .prim _, _ => by simp [Ty.isError, Ty.under]
+    | .record _, _ => by simp [Ty.isError, Ty.under]
+    | .array _, _ => by simp [Ty.isError, Ty.under]
+    | .set _, _ => by simp [Ty.isError, Ty.under]
+    | .enum _, _ => by simp [Ty.isError, Ty.under]
+    | .error _, h => by simp [clean] at h
+    | .map _ _, h => by simp [clean] at h
+    | .union _, h => by simp [clean] at h
 
 theorem clean_under : (a : Ty) → clean a = true → clean a.under = true
   | .named _ t, h => by simpa [Ty.under] using clean_under t (by simpa [clean] using h)
@@ -67,16 +89,18 @@ theorem clean_under : (a : Ty) → clean a = true → clean a.under = true
   | .record _, h => by simpa [Ty.under] using h
   | .array _, h => by simpa [Ty.under] using h
   | .set _, h => by simpa [Ty.under] using h
+  | .enum _, h => by simpa [Ty.under] using h
+  | .error _, h => by simp [clean] at h
   | .map _ _, h => by simp [clean] at h
   | .union _, h => by simp [clean] at h
 
 theorem fits_member {a T : Ty} {ms : Tys} (hc : clean a = true) (hT : T.under = .union ms)
-    (h : a ∈ ms.toList) : fits a T = true := by
+    (h : a ∈ ms.toList) : fitsN a T = true := by
   have hb := bestUnionTag_of_mem hT h
   have hu := (clean_not_union a hc).1
   have hTm : T.isMap = false := by simp [Ty.isMap, hT]
   have hTp : T.isPrim = false := by simp [Ty.isPrim, hT]
-  simp [fits, fitsHead, hTm, hTp, fitsU_of_tag a T hb a hu]
+  simp [fitsN, fitsHead, hTm, hTp, fitsU_of_tag a T hb a hu]
 
 theorem mem_lookupUnion (ts : List Ty) (t : Ty) (h : t ∈ ts) :
     ∃ ms, (lookupUnion ts).under = .union ms ∧ t ∈ ms.toList :=
@@ -211,7 +235,7 @@ theorem mergeFields_names_nodup (m : Ty → Ty → Option Ty) :
       exact ⟨ha, by simp, by intro a ha' b hb; simp at hb; subst hb; exact fun e => hk (e ▸ ha')⟩
 
 theorem fitsFields_of (fc : Fields) : (fa : Fields) →
-    (∀ i n t, fa.get? i = some (n, t) → ∃ u, fc.lookup n = some u ∧ fits t u = true) →
+    (∀ i n t, fa.get? i = some (n, t) → ∃ u, fc.lookup n = some u ∧ fitsN t u = true) →
     fitsFields fa fc = true
   | .nil, _ => by simp [fitsFields]
   | .cons n t r, h => by
@@ -231,9 +255,9 @@ theorem cleanF_get? : {fs : Fields} → cleanF fs = true → {i : Nat} → {n : 
     simp only [cleanF, Bool.and_eq_true] at hc
     exact cleanF_get? hc.2 (by simpa [Fields.get?] using h)
 
-/-- a record type fits a record target that has all its fields, each fitting -/
+/-- a record type fitsN a record target that has all its fields, each fitting -/
 theorem fits_record {a T : Ty} {fa fo : Fields} (ha : a.under = .record fa) (hT : T.under = .record fo)
-    (hna : fa.names.Nodup) (hno : fo.names.Nodup) (hf : fitsFields fa fo = true) : fits a T = true := by
+    (hna : fa.names.Nodup) (hno : fo.names.Nodup) (hf : fitsFields fa fo = true) : fitsN a T = true := by
   have hTm : T.isMap = false := by simp [Ty.isMap, hT]
   have hTp : T.isPrim = false := by simp [Ty.isPrim, hT]
   have hU : ∀ cur : Ty, cur.under = .record fa → fitsU a cur T = true := by
@@ -244,7 +268,7 @@ theorem fits_record {a T : Ty} {fa fo : Fields} (ha : a.under = .record fa) (hT 
       intro h
       subst h
       simp [fitsU, hT, hna, hno, hf]
-  simp [fits, fitsHead, hTm, hTp, hU a ha]
+  simp [fitsN, fitsHead, hTm, hTp, hU a ha]
 
 theorem lookup_of_mem_names : {fs : Fields} → {n : Name} → n ∈ fs.names → ∃ u, fs.lookup n = some u
   | .nil, _, h => by simp [Fields.names] at h
@@ -282,8 +306,8 @@ theorem mergeFields_names_sup (m : Ty → Ty → Option Ty) :
     · exact i1 _ hk
     · exact i2 n hn'
 
-theorem fits_inner {a T x z : Ty} (ha : a.inner? = some x) (hT : T.inner? = some z) (h : fits x z = true) :
-    fits a T = true := by
+theorem fits_inner {a T x z : Ty} (ha : a.inner? = some x) (hT : T.inner? = some z) (h : fitsN x z = true) :
+    fitsN a T = true := by
   have hTm : T.isMap = false := by
     unfold Ty.inner? at hT; unfold Ty.isMap
     cases hu : T.under <;> simp_all
@@ -296,7 +320,7 @@ theorem fits_inner {a T x z : Ty} (ha : a.inner? = some x) (hT : T.inner? = some
     | case1 n t ih => intro hh; simp only [fitsU]; exact ih (by simpa [Ty.inner?, Ty.under] using hh)
     | case2 t hnot =>
       intro hh
-      unfold fits at h
+      unfold fitsN at h
       cases t with
       | array i =>
         simp only [Ty.inner?, Ty.under, Option.some.injEq] at hh; subst hh
@@ -309,9 +333,11 @@ theorem fits_inner {a T x z : Ty} (ha : a.inner? = some x) (hT : T.inner? = some
       | record _ => simp [Ty.inner?, Ty.under] at hh
       | map _ _ => simp [Ty.inner?, Ty.under] at hh
       | union _ => simp [Ty.inner?, Ty.under] at hh
-  simp [fits, fitsHead, hTm, hTp, hU a ha]
+      | enum _ => simp [Ty.inner?, Ty.under] at hh
+      | error _ => simp [Ty.inner?, Ty.under] at hh
+  simp [fitsN, fitsHead, hTm, hTp, hU a ha]
 
-theorem fits_refl (t : Ty) : fits t t = true := fits_of_under_eq rfl
+theorem fits_refl (t : Ty) : fitsN t t = true := fits_of_under_eq rfl
 
 theorem clean_inner {a x : Ty} (hc : clean a = true) (h : a.inner? = some x) : clean x = true := by
   have := clean_under a hc
